@@ -271,6 +271,8 @@ class Enumerator:
         for n in walk_own(fnode):
             if isinstance(n, ast.Call) and isinstance(n.func, ast.Attribute) and n.func.attr in MUTATORS:
                 r = n.func.value
+                while isinstance(r, (ast.Subscript, ast.Attribute)):
+                    r = r.value  # d[k].append(x) mutates the contents of d
                 if isinstance(r, ast.Name):
                     out.add(r.id)
             elif isinstance(n, ast.AugAssign):
@@ -485,7 +487,11 @@ class Enumerator:
             return
         if isinstance(t, (ast.Attribute, ast.Subscript)):
             tt = U(subst(_as_load(t), p))
-            p.effects.append(Effect("store", st, recv=tt, value=v, fi=fi))
+            # x[k] = x[k] + v  is the spelled-out form of  x[k] += v
+            if isinstance(v, ast.BinOp) and isinstance(v.op, (ast.Add, ast.Sub, ast.Mult)) and strip_v(U(v.left)) == strip_v(tt):
+                p.effects.append(Effect("aug", st, recv=tt, name=type(v.op).__name__, value=v.right, fi=fi))
+            else:
+                p.effects.append(Effect("store", st, recv=tt, value=v, fi=fi))
             b = t
             while isinstance(b, (ast.Subscript, ast.Attribute)):
                 b = b.value
@@ -511,8 +517,12 @@ class Enumerator:
         out: Set[str] = set()
         for st in stmts:
             for n in ast.walk(st):
-                if isinstance(n, ast.Call) and isinstance(n.func, ast.Attribute) and n.func.attr in MUTATORS and isinstance(n.func.value, ast.Name):
-                    out.add(n.func.value.id)
+                if isinstance(n, ast.Call) and isinstance(n.func, ast.Attribute) and n.func.attr in MUTATORS:
+                    r = n.func.value
+                    while isinstance(r, (ast.Subscript, ast.Attribute)):
+                        r = r.value
+                    if isinstance(r, ast.Name) and r.id != "self":
+                        out.add(r.id)
         return out
 
     def _loop(self, st, p: Path, fi: FuncInfo, stateful: Set[str]) -> List[Path]:
@@ -750,9 +760,13 @@ class Enumerator:
             except RecursionError:  # pragma: no cover
                 args, kwargs = [], {}
             p.effects.append(Effect("ccall" if cond else "call", n, recv=recv, name=name, args=args, kwargs=kwargs, text=U(subst(n, p)), fi=fi, orig=n))
-            if isinstance(f, ast.Attribute) and name in MUTATORS and isinstance(recv_node, ast.Name):
-                self._bump(p, recv_node.id)
-                _forget(p, {recv_node.id})
+            if isinstance(f, ast.Attribute) and name in MUTATORS:
+                root = recv_node
+                while isinstance(root, (ast.Subscript, ast.Attribute)):
+                    root = root.value
+                if isinstance(root, ast.Name) and root.id != "self":
+                    self._bump(p, root.id)
+                    _forget(p, {root.id})
 
     # -- tests ----------------------------------------------------------------------------
     def _decide(self, p: Path, key: str, implied: Optional[bool] = None) -> List[Tuple[Path, bool]]:
